@@ -473,7 +473,7 @@ class PytestOrderSpec(RunnerOrderSpec):
             with open(os.path.join(d, modname + '.py'), 'w') as f:
                 f.write(src)
             os.environ.pop('XV_F', None)
-            args = ['--xdoctest', '--xdoctest-style=freeform', '-p', 'no:cacheprovider', '-q', '--rootdir', d, '-c', '/dev/null',
+            args = ['--xdoctest', '--xdoctest-style=freeform', *harness.PYTEST_ISOLATION_ARGS, '-q', '--rootdir', d, '-c', '/dev/null',
                     modname + '.py']
             opts = {'none': None, 'opt-ellipsis': '+ELLIPSIS', 'opt-noskip': '-SKIP,+NORMALIZE_WHITESPACE'}[cfg]
             if opts:
